@@ -83,6 +83,14 @@ Theorem C15_segmentation_independent_total_handler : forall handler,
 Proof. exact seg_independent_total. Qed.
 Print Assumptions C15_segmentation_independent_total_handler.
 
+(* a read that returns bytes together with os.ErrDeadlineExceeded is a read of those bytes: the
+   connection over read events (chunk, came-with-deadline-error) is the connection over the chunks,
+   so every statement of this file holds for every mix of (n, nil), (n, deadline), (0, deadline) *)
+Theorem C15_deadline_error_with_data_is_data : forall handler events,
+  conn_run_ev handler events = conn_run handler (map fst events).
+Proof. exact conn_run_ev_eq. Qed.
+Print Assumptions C15_deadline_error_with_data_is_data.
+
 (* ---------- (ii) one read of a whole stream ---------- *)
 (* one read of the library's encodings of any requests ([encodable]: see ServerPacketFacts),
    followed by a proper prefix of another one, emits the reply to each frame in order, keeps
